@@ -17,6 +17,7 @@ from typing import Any
 import z3
 
 from pyvc import emit
+from pyvc.driver import FunctionSpec
 from pyvc.engine import PyExc, Run
 from pyvc.values import BoundMethod, ModuleV, Ref, Sym, wrap, z
 
@@ -749,3 +750,86 @@ def regex_node_templates():
     out.append(mk("RegexExpression", lambda: RegexExpression(r"\p{L}"), "prop"))
     out.append(mk("OptimizedChoice", lambda: OptimizedChoice([ChoiceLiteral("ab", ChoiceCase.SENSITIVE), ChoiceRange("0", "9")]), "mixed"))
     return out
+
+
+# ================================================================== what makes the stub-children templates representative
+class StubsRepresentative(FunctionSpec):
+    """The templates are obtained by running the real generate() with STUB children and symbolic numeric parameters, the
+    interpreter proofs treat children as oracles: both are representative of every grammar only if parse() / generate() do
+    not branch on the class, tag or attributes of a child expression.  Syntactic audit: the sites that do are exactly the
+    known ones (Rule's atomic-children test - finding F8 -, NegativePredicate's label choice).  Round-7 seed C04d added
+    `isinstance(self.expression, Identifier)` to Repeat.generate and every template proof stayed green."""
+
+    target = "pest.grammar.expression.Expression.generate"
+    label = "templates.stubs_representative"
+
+    def source(self, engine):
+        fi = engine.program.funcs.get(self.target)
+        return fi if fi is not None else next(iter(engine.program.funcs.values()))
+
+    def direct(self, run: Run) -> None:
+        from .common import KNOWN_SHAPE_SITES, shape_inspection_sites
+
+        sites = set(shape_inspection_sites())
+        run.oblige("no_branch_on_child_shape", sites <= KNOWN_SHAPE_SITES, note=str(sorted(sites - KNOWN_SHAPE_SITES)))
+
+
+class DelegatingGenerate(FunctionSpec):
+    """e{n}, e{n,}, e{,n}, e{m,n}: generate() must be exactly `_unrolled(self).generate(gen, matched_var, pairs_var)` for
+    ALL values of the numeric parameters - no emission of its own, one delegation with the arguments it was given (the twin
+    of ops.DelegatingRepeatSpec for parse()).  The stub-children template of these classes is emitted with a symbolic count
+    whose comparisons take one concrete branch, so a special case such as `if self.number < 2` (round-7 seed C01d: a counted
+    loop for e{,n}, n >= 2) is invisible there; here the real generate() is executed with a symbolic n."""
+
+    def __init__(self, cls_name: str):
+        self.cls = f"pest.grammar.expressions.postfix.{cls_name}"
+        self.target = f"{self.cls}.generate"
+        self.label = f"{self.target}[delegation]"
+
+    def setup(self, run: Run):
+        from pyvc.values import Child
+
+        n, m, mx = run.fresh("n", "int"), run.fresh("m", "int"), run.fresh("mx", "int")
+        run.assume(z3.And(n.t >= 0, m.t >= 0, mx.t >= 0))
+        me = run.heap.alloc(self.cls, {"expression": Child(0, "c"), "tag": None, "number": n, "min": m, "max": mx}, fresh=False)
+        gen = run.heap.alloc("pest.grammar.codegen.builder.Builder", {}, fresh=False)
+        mv, pv = run.fresh("matched_var", "str"), run.fresh("pairs_var", "str")
+        run.pre = {"me": me, "gen": gen, "mv": mv, "pv": pv, "delegations": [], "emissions": []}
+        return me, [gen, mv, pv], {}
+
+    @property
+    def summaries(self):
+        from pyvc.values import Child
+
+        def unrolled(run: Run, recv, args, kwargs):
+            run.oblige("delegates.self", len(args) == 1 and isinstance(args[0], Ref) and args[0].oid == run.pre["me"].oid)
+            return Child(0, "unrolled")
+
+        return {"pest.grammar.expressions.postfix._unrolled": unrolled}
+
+    def call_method(self, run: Run, recv: Any, name: str, args, kwargs, n):
+        from pyvc.values import Child
+
+        if isinstance(recv, Child) and recv.tag == "unrolled" and name == "generate":
+            run.pre["delegations"].append((list(args), dict(kwargs)))
+            return None
+        if isinstance(recv, Child):
+            run.pre["emissions"].append(f"child.{name}")
+            return None
+        if isinstance(recv, Ref) and recv.oid == run.pre["gen"].oid:
+            run.pre["emissions"].append(f"gen.{name}")
+            from pyvc.values import Opaque
+
+            return Opaque(f"gen.{name}()")
+        return NotImplemented
+
+    def post(self, run: Run, pre: Any, out: Any) -> None:
+        d = pre["delegations"]
+        same = len(d) == 1 and not d[0][1] and len(d[0][0]) == 3 and isinstance(d[0][0][0], Ref) and d[0][0][0].oid == pre["gen"].oid \
+            and d[0][0][1] is pre["mv"] and d[0][0][2] is pre["pv"]
+        run.oblige("generate.delegates_once_with_its_arguments", same, note=f"{len(d)} delegation(s)")
+        run.oblige("generate.emits_nothing_itself", not pre["emissions"], note=str(pre["emissions"][:4]))
+
+
+def delegating_generate_specs():
+    return [DelegatingGenerate(c) for c in ("RepeatExact", "RepeatMin", "RepeatMax", "RepeatMinMax")]
